@@ -6,7 +6,10 @@ the contract's answer LoadExp(source) (newest own offset, run id or unknown, dat
 incompatible version, which stale own entries are removed).  TLC checks the contract's consequences in
 every state; the driver installs each (sampled: quick / all: thorough) state in the model Redis over
 loopback TCP with shuffled field order, calls the REAL checkpoint.LoadCheckpoint for every source and
-compares result and post-state."""
+compares result and post-state.  Writer and reader together: behaviours of IncrSync.tla with database
+switches and two cuts are replayed lock-step - the REAL sender writes the checkpoints, the REAL loader
+reads them after each cut and a new sender resumes from the answer, sometimes under another run id;
+every snapshot is judged by TLC (offset, database and run id stored together)."""
 import json
 import time
 
@@ -46,13 +49,22 @@ def run(tier, seed, replay=None):
             prefix_mix = any(("h:63-" in k and any("h:6379-" in k2 and k2.split("/")[0] == k.split("/")[0] for k2 in fields)) for k in fields)
             verdict.violation({"kind": "load", "src": ex["src"], "expected": ex["kind"], "prefix_related_sources_share_db": prefix_mix},
                               m["detail"], {"family": "ckpt", "state": states[m["case"]], "src": ex["src"]})
+        # ---- writer and reader together: the REAL sender writes checkpoints (database switches, several batches), the run is cut,
+        # the REAL loader reads them back and a new sender resumes - sometimes under another run id (IncrSync.tla, lock-step)
+        from checks.incr_common import one_family
+        wstats = {"lockstep_paths": 0, "steps": 0, "snapshots": 0, "crash_restarts": 0, "drifts": 0, "free_runs": 0}
+        wcmds, wsamples = [], []
+        fam = dict(name="writer-reader", params=dict(fdbs=[], kf=False, lua=False, tdb=9, resume=True, sender_count=1, buf_cap=2, crash=2, maxlen=7, kinds=["w", "ping"]),
+                   mc_len=(4, 5), paths_quick=120, paths_thorough=1200, depth=70)
+        ws, wt = one_family(sc, verdict, fam, thorough, seed, ["InOrderExactlyOnce", "NoMarkers", "CkptAtomic", "CkptHasRunId", "Complete"], wstats, wcmds, wsamples)
     rc = verdict.finish()
-    cov = {"states": mc.distinct, "transitions": mc.generated, "traces_validated_against_impl": res["evaluations"],
+    cov = {"states": mc.distinct + ws, "transitions": mc.generated + wt, "traces_validated_against_impl": res["evaluations"] + wstats["lockstep_paths"],
+           "writer_reader_behaviours": wstats["lockstep_paths"], "writer_reader_restarts": wstats["crash_restarts"],
            "samples": states[5:7], "evaluations": res["evaluations"], "distinct_nontrivial": res["nontrivial"],
            "rule": "cases = (distinct simulated target state, source); non-trivial = the source has an own checkpoint in the state",
            "exhaustive": False, "distinct_states_replayed": len(states), "checker_cmd": mc.cmd + "; " + r.cmd}
     vlib.write_evidence(PID, tier, seed, "model_checking", cov, time.time() - t0, len(verdict.violations),
                         ["the model Redis (mredis) stands in for the target: INFO keyspace, SELECT, EXISTS, HGETALL, HDEL",
                          "ties (two databases holding the same own offset) are not generated: the sender's offsets strictly increase",
-                         "the writer side (what the real sender stores) is bound in the C04 check, which feeds real sender output to the real loader"])
+                         "writer and reader together: one IncrSync family (database switches, two cuts per behaviour) replayed lock-step; the full set of families is C04's"])
     return rc
